@@ -426,6 +426,9 @@ func (self *visitorUserNode) OnObjectBegin(capacity int) error {
 				return err
 			}
 		}
+		// the field is now tracked by the stack; a pending globalFieldDesc would make the end of an
+		// empty object look like the end of a scalar value and leave the stack entry behind
+		self.globalFieldDesc = nil
 	}
 	return err
 }
@@ -579,6 +582,8 @@ func (self *visitorUserNode) OnArrayBegin(capacity int) error {
 		if err = self.push(false, false, true, self.globalFieldDesc, curNodeLenPos); err != nil {
 			return err
 		}
+		// the field is now tracked by the stack (see OnObjectBegin)
+		self.globalFieldDesc = nil
 	}
 	return err
 }
